@@ -348,7 +348,8 @@ func (c *C) Mail(ctx context.Context, from string, opts smtp.MailOptions) error 
 	return nil
 }
 
-// Rcpts returns the list of recipients that were accepted by the remote server.
+// Rcpts returns the list of recipients that were accepted by the remote server,
+// exactly as they were passed to Rcpt.
 func (c *C) Rcpts() []string {
 	return c.rcpts
 }
@@ -376,6 +377,10 @@ func (c *C) Rcpt(ctx context.Context, to string, opts smtp.RcptOptions) error {
 		// TODO: DSN support
 	}
 
+	// Rcpts must report the address exactly as it was passed by the caller,
+	// even if it has to be converted for the remote server.
+	originalTo := to
+
 	// If necessary, the extension flag is enabled in Start.
 	if ok, _ := c.cl.Extension("SMTPUTF8"); !address.IsASCII(to) && !ok {
 		var err error
@@ -397,7 +402,7 @@ func (c *C) Rcpt(ctx context.Context, to string, opts smtp.RcptOptions) error {
 		return c.wrapClientErr(err, c.serverName)
 	}
 
-	c.rcpts = append(c.rcpts, to)
+	c.rcpts = append(c.rcpts, originalTo)
 
 	return nil
 }
